@@ -39,9 +39,9 @@ Structs == { [kind |-> "struct", shape |-> sh, transparent |-> FALSE, fs |-> fs]
 IdxVals == IF Tier = "quick" THEN {0, 1, 2, 255} ELSE {0, 1, 2, 3, 254, 255}
 VariantFs == { <<>>, <<[ty |-> "u8", attr |-> "none"]>>, <<[ty |-> "u32", attr |-> "compact"], [ty |-> "vecu8", attr |-> "none"]>>,
                <<[ty |-> "u32", attr |-> "none"]>>, <<[ty |-> "u32", attr |-> "compact"]>> }     \* same type, different wire form
-\* data-carrying variants: index from attribute or position
+\* data-carrying variants: index from attribute, explicit discriminant (the enum then carries #[repr(u8)]) or position
 DataVariants == { [src |-> s, val |-> v, skip |-> sk, fs |-> fs] :
-                    s \in {"none", "attr"}, v \in IdxVals, sk \in BOOLEAN, fs \in VariantFs }
+                    s \in {"none", "attr", "disc"}, v \in IdxVals, sk \in BOOLEAN, fs \in VariantFs }    \* ("disc": #[repr(u8)] enum)
 \* unit variants: also explicit discriminants
 UnitVariants == { [src |-> s, val |-> v, skip |-> sk, fs |-> <<>>] :
                     s \in {"none", "attr", "disc"}, v \in IdxVals, sk \in BOOLEAN }
